@@ -157,7 +157,7 @@ def check_props(prop: str):
         if b.startswith('Closed under'):
             res['axioms'][name] = []
         else:
-            ax = re.findall(r'^([A-Za-z_][\w.\']*)\s*:', b, flags=re.M)
+            ax = re.findall(r'^([A-Za-z_][\w.\']*)\s*(?::|$)', b, flags=re.M)
             ax = [a for a in ax if a != 'Axioms']
             res['axioms'][name] = ax
             for a in ax:
